@@ -366,6 +366,8 @@ def program_is_valid(program) -> bool:
             run_reference(program, exact_overshoot=True)
     except InvalidProgram:
         return False
+    except RuntimeError:  # a program the generator could not bring under the reference budget
+        return False
     return True
 
 
